@@ -93,8 +93,11 @@ static bool reached_established;
 static time_t t_start, t_established;
 static uint8_t last_query_type;
 
+static unsigned int clock_reads_since_step; /* clock readings since the last other environment interaction */
+
 static void spend(void)
 {
+	clock_reads_since_step = 0;
 	if (S.state != RTR_SHUTDOWN)
 		VASSERT(sinv(), "fsm: socket invariant SInv is re-established at every step (inductive)");
 	if (S.state == RTR_ESTABLISHED && !reached_established) {
@@ -125,6 +128,7 @@ int lrtr_get_monotonic_time(time_t *seconds)
 	VASSUME(adv == 0);
 #endif
 	env_now += adv;
+	clock_reads_since_step++;
 	env_last_read_failed = false;
 #ifdef CLOCK_MAY_FAIL
 	if (ND_BOOL("clock.fail")) {
@@ -192,6 +196,8 @@ int tr_open(struct tr_socket *t)
 #ifdef ASSERT_C07
 	/* C07: judged on the clock reading the code itself obtained in its purge check */
 	if ((g_has_pfx || g_has_spki)) {
+		VASSERT(clock_reads_since_step > 0,
+			"C07 fsm: the age of the cache's records is evaluated on every connection attempt while records exist");
 		VASSERT(S.last_update != 0, "C07 fsm: records of the cache exist only while last_update is set");
 		VASSERT(S.last_update == g_t_success, "C07 fsm: last_update is the time of the last successful synchronisation");
 		VASSERT(env_last_read_failed || (int64_t)env_last_read - (int64_t)g_t_success <= (int64_t)S.expire_interval,
